@@ -845,6 +845,15 @@ func (e *Env) builtin(name string, x *ast.CallExpr) (Val, bool) {
 		return intVal(w), true
 	case "tsum", "tsumSplit", "tsumOne", "tsumSame":
 		return e.tsumBuiltin(name, x), true
+	case "chr":
+		// the one-byte string
+		x := e.evalInt(arg(0))
+		e.c.sc.declareFun("str.chr", []string{sInt}, sStr)
+		t := app("str.chr", x)
+		if !strings.Contains(x, "q.") {
+			e.c.onceFact("chr:"+t, and(eq(app("slen", t), "1"), eq(app("sbyte", t, "0"), x)))
+		}
+		return Val{Typ: tStr, L: []T{t}}, true
 	case "slen":
 		v := e.eval(arg(0))
 		return intVal(app("slen", v.one())), true
@@ -1009,7 +1018,9 @@ func (e *Env) designator0(x ast.Expr) []ModLoc {
 			for _, l := range leavesOf(u.Elem()) {
 				m := ModLoc{Key: elemKey(u.Elem(), l.Suffix), Sort: arr(sInt, arr(sInt, l.Sort)), Ref: base.L[0], Leaf: l, HasLeaf: true}
 				if !all {
-					m.HasIdx, m.Idx = true, slIdx(base.L[1], e.evalInt(x.Index))
+					ne := *e
+					ne.guard = nil
+					m.HasIdx, m.Idx = true, slIdx(base.L[1], ne.evalInt(x.Index))
 				}
 				out = append(out, m)
 			}
@@ -1021,7 +1032,9 @@ func (e *Env) designator0(x ast.Expr) []ModLoc {
 				out = append(out, ModLoc{Key: mapValKey(u, l.Suffix), Sort: arr(sInt, arr(ks, l.Sort)), Ref: base.one(), Leaf: l, HasLeaf: true})
 			}
 			if !all {
-				k := e.eval(x.Index).one()
+				ne := *e
+				ne.guard = nil
+				k := ne.eval(x.Index).one()
 				for i := range out {
 					out[i].HasIdx, out[i].Idx = true, k
 				}
